@@ -341,3 +341,15 @@ Proof. vm_compute. split; reflexivity. Qed.
 Lemma no_panic_datauri_proof :
   forall b64dec b, Forall is_byte b -> exists r, data_uri b64dec b = Ok r.
 Proof. intros b64dec b Hb. destruct (datauri_total_proof b64dec b Hb) as (r & Hr & _). eauto. Qed.
+
+(* percent-encoding with the library's own DataURIEncodingTable: everything but '+' comes back *)
+Lemma datauri_percent_datauri_table_proof :
+  forall b64dec p np last d, params p np -> plain last -> trim_ref last <> base64_bytes -> Forall is_byte d ->
+    data_uri b64dec (data_scheme ++ (p ++ last) ++ 44 :: encode_ref Tables.datauri_encoding_table d) =
+    Ok (DOk (mt_default (np ++ trim_ref last)) (map plus_to_space d)).
+Proof.
+  intros b64dec p np last d Hp Hlast Hnb Hd.
+  rewrite (datauri_percent_proof b64dec p np last _ Hp Hlast Hnb).
+  destruct datauri_table_facts as (_ & _ & H37 & H43).
+  rewrite unescape_encode_ref_plus by assumption. reflexivity.
+Qed.
